@@ -135,6 +135,34 @@ def col_cases(tier):
         yield ("col:typedef-close:header", ".h", text, 19, w)
 
 
+def wrapped_cases(tier):
+    """Statements spanning two physical lines: each line is judged on its own
+    (yield label, text, [(line, width), (line, width)])."""
+    forms = {
+        "cond": ("\tif (ft_", "(n) > 0", "\t\t&& ft_", "(p))", "\t\tn = 0;\n"),
+        "call": ("\tft_", "(n,", "\t\tft_", "(p));", ""),
+        "return": ("\treturn (ft_", "(n)", "\t\t+ ft_", "(p));", ""),
+        "assign": ("\tn = ft_", "(n,", "\t\t\tft_", "(p));", ""),
+    }
+    pairs = [(w1, w2) for w1 in (79, 80, 81, 82) for w2 in range(77, 87)] + [(w1, 81) for w1 in range(77, 87)] + \
+            [(w1, 80) for w1 in range(77, 87)]
+    for name, (a1, z1, a2, z2, tail) in forms.items():
+        for w1, w2 in dict.fromkeys(pairs):
+            l1 = pad_to(a1, z1, w1, "a")
+            l2 = pad_to(a2, z2, w2, "b")
+            if l1 is None or l2 is None:
+                continue
+            body = l1 + "\n" + l2 + "\n" + tail
+            text = HDR_C + "int\tft_first(int n, char *p)\n{\n" + body + "\treturn (n);\n}\n"
+            yield (f"col2:wrapped-{name}", text, [(15, w1), (16, w2)])
+    # signature continued on a second line
+    for w1, w2 in dict.fromkeys(pairs):
+        l1 = pad_to("int\tft_", "(int n,", w1, "a")
+        l2 = pad_to("\t\tchar *p_", ")", w2, "b")
+        if l1 and l2:
+            yield ("col2:wrapped-signature", HDR_C + l1 + "\n" + l2 + "\n{\n\treturn (n);\n}\n", [(13, w1), (14, w2)])
+
+
 # ---------------------------------------------------------------- 25 lines
 
 def body_shapes(n, tier):
@@ -253,7 +281,16 @@ def judge(task):
     if r.exc is not None:
         return [("exception:" + r.exc[0], str(r.exc))]
     out = []
-    if kind == "col":
+    if kind == "col2":
+        for ln, w in where:
+            hit = [d for d in errs if d[1] == "LINE_TOO_LONG" and d[2] == ln]
+            if w > 80 and not hit:
+                out.append(("missing", f"line {ln} of a wrapped statement has width {w}: no LINE_TOO_LONG; widths {where}; errors {errs[:3]}"))
+            if w <= 80 and hit:
+                out.append(("spurious", f"line {ln} has width {w}: LINE_TOO_LONG reported; widths {where}"))
+        if all(w <= 80 for _, w in where) and errs:
+            out.append(("other-error-at-limit:" + errs[0][1], f"{errs[:3]}"))
+    elif kind == "col":
         hit = [d for d in errs if d[1] == "LINE_TOO_LONG" and d[2] == where]
         others = [d for d in errs if not (d[1] == "LINE_TOO_LONG" and d[2] == where)]
         if n > 80 and not hit:
@@ -302,6 +339,8 @@ def judge(task):
 def all_tasks(tier):
     for label, ftype, text, ln, w in col_cases(tier):
         yield ("col", label, ftype, text, w, ln)
+    for label, text, lw in wrapped_cases(tier):
+        yield ("col2", label, ".c", text, max(w for _, w in lw) * 100 + min(w for _, w in lw), lw)
     for label, text, n, close_line in line_cases(tier):
         yield ("lines", label, ".c", text, n, close_line)
     for label, text, f, sig_lines in func_cases(tier):
@@ -329,7 +368,7 @@ def run(tier, seed):
     st.states = len(tasks)
     st.transitions = max(1, len(tasks) - len(chains))
     st.outcomes = chains
-    for k in ("col", "lines", "funcs", "params", "vars"):
+    for k in ("col", "col2", "lines", "funcs", "params", "vars"):
         if st.vacuity.get("cases:" + k, 0) == 0:
             raise HarnessError(f"no case generated for limit kind {k}")
     for t in tasks[:: max(1, len(tasks) // 4)][:4]:
